@@ -38,6 +38,8 @@ class Ref:
     self.list_nothing = list_nothing   # 'null' (documented) | 'empty' (known SQLite deviation)
     self.sccs = self._sccs()
     self.iteration_trace = {}
+    self.iter_cache = {}
+    self.iterations_override = {}
 
   # ------------------------------------------------------------ dependency analysis
   def _deps(self, pred):
@@ -107,17 +109,27 @@ class Ref:
     self.cache[pred] = rel
     return rel
 
-  def _recursive(self, pred):
-    scc = self.sccs[pred]
+  def depth_of(self, scc):
     depth = None
     for p in scc:
       if p in self.depths:
         depth = self.depths[p] if depth is None else max(depth, self.depths[p])
-    if depth is None:
-      depth = self.default_depth
+    return self.default_depth if depth is None else depth
+
+  def _recursive(self, pred):
+    scc = self.sccs[pred]
+    n = self.iterations_override.get(pred)
+    if n is None:
+      n = self.depth_of(scc) + 1
+    return self.iterate(scc, n)[pred]
+
+  def iterate(self, scc, n):
+    """n simultaneous applications of the rules of scc starting from empty relations."""
+    key = (tuple(scc), n)
+    if key in self.iter_cache:
+      return self.iter_cache[key]
     rels = {p: Rel(self.columns(p), [], distinct=True) for p in scc}
-    trace = []
-    for it in range(depth + 1):
+    for it in range(n):
       saved = dict(self.override)
       self.override.update(rels)
       # predicates outside the scc that depend on it must not be cached across iterations
@@ -128,11 +140,13 @@ class Ref:
         self.override = saved
         self.cache = cache_saved
       rels = new
-      trace.append(dict(rels))
-    for p in scc:
-      self.cache[p] = rels[p]
-      self.iteration_trace[p] = [t[p] for t in trace]
-    return rels[pred]
+      self.iter_cache[(tuple(scc), it + 1)] = rels
+    self.iter_cache[key] = rels
+    return rels
+
+  def relation_after(self, pred, n):
+    """the relation of a recursive predicate after exactly n applications."""
+    return self.iterate(self.sccs[pred], n)[pred]
 
   def eval_pred(self, pred):
     rules = self.prog.rules_of(pred)
